@@ -29,7 +29,7 @@ Section Dec.
   Variable fp : list pt -> option rect.
 
   (* op codes: 0 move, 1 line, 2 quad, 3 cubic, 4 close, 5 push_rect(ltrb), 6 push_oval(ltrb),
-     7 push_circle, 8 n <sub-ops of total length n> push_path, 9 clear, 10 finish + Path::clear.  Rect arguments go
+     7 push_circle, 8 n <sub-ops of total length n> push_path, 9 clear, 10 finish + Path::clear, 11 = PathBuilder::default().  Rect arguments go
      through Rect::from_ltrb; if that returns None the op is skipped.  Unknown/truncated input
      ends the sequence. *)
   Fixpoint run_ops (fuel : nat) (b : builder) (l : list Z) : builder :=
@@ -67,6 +67,8 @@ Section Dec.
             | Some p => run_ops fuel' (path_clear p) r
             | None => run_ops fuel' new_builder r
             end
+        | 11 :: r => (* the builder is replaced by PathBuilder::default() *)
+            run_ops fuel' default_builder r
         | _ => b
         end
     end.
